@@ -1,7 +1,7 @@
 (* C07 / C08: remaining lemmas about the operator layer - refused insertions, index rules,
    the defects of the unrepaired code as refutations with witnesses. *)
 From Coq Require Import ZArith List ListDec Arith Lia Bool.
-From SqfVerif Require Import Data.DataDefs Data.DataGraph Data.DataHeap Data.DataStep Data.DataTerm Data.DataFrame.
+From SqfVerif Require Import Data.DataDefs Data.DataGraph Data.DataHeap Data.DataSort Data.DataStep Data.DataTerm Data.DataFrame.
 Import ListNotations.
 Local Open Scope Z_scope.
 
@@ -103,7 +103,9 @@ Proof.
     destruct (Z.ltb n 0); [|cbn; tauto]. cbn [d_resize_unchecked repaired negb]. rewrite Bool.orb_true_r. cbn. intuition discriminate.
   - destruct (eval_opnd st t) as [[s1 tv]|]; [|cbn; tauto]. destruct (arr_of s1 tv) as [[a l]|]; cbn; tauto.
   - destruct (eval_opnd st t) as [[s1 tv]|]; [|cbn; tauto]. destruct (arr_of s1 tv) as [[a l]|]; [|cbn; tauto].
-    destruct (Nat.leb (length l) 1); [cbn; tauto|]. destruct (sortable_nums l); [cbn; tauto|]. destruct (sortable_strs l); cbn; tauto.
+    destruct (Nat.leb (length l) 1); [cbn; tauto|]. destruct (sortable_nums l); [cbn; tauto|]. destruct (sortable_strs l); [cbn; tauto|].
+    destruct (sort_table (st_heap s1) asc l) as [[l'|ds|]| |] eqn:Es; try (cbn; tauto).
+    cbn. intros H. destruct (sort_table_refused_diags _ _ _ _ Es _ H); discriminate.
   - destruct (eval_opnd st x) as [[s1 v]|]; [|cbn; tauto]. intros H. exfalso. revert H. apply assign_no_rec. cbn; tauto.
   - destruct (eval_opnd st x) as [[s1 v]|]; [|cbn; tauto].
     destruct (arr_of s1 v) as [[a l]|].
